@@ -388,4 +388,9 @@ def gt_search(draw, m: SidModel, t: str, fields: Dict[str, str]):
             segs = segs[:a] + ["**"] + segs[b:]
             labels.append("dstar-left")
     labels.append(f"gt-at:{i}")
+    if not via_query and len(keys) >= 4 and draw(st.integers(0, 19)) == 0:
+        # '**' right after the first level, '>' right after it: the shortest expansion carries the '>' on a narrowed level
+        rest = ["*" if draw(st.booleans()) else fields[k] for k in keys[3:]]
+        segs = [fields[keys[0]] if draw(st.booleans()) else "*", "**", ">"] + rest
+        labels.append("gt-after-leading-dstar")
     return {"s": "/".join(segs) + q, "labels": labels, "gt_index": i}
